@@ -158,6 +158,9 @@ func (w *World) computeFinalFields() {
 
 // isFinalComp reports whether a heap component is a final field (see computeFinalFields).
 func (w *World) isFinalComp(c string) bool {
+	if c == compRangeIter {
+		return true // engine-internal iteration counters: no call can change them
+	}
 	if w.finalFields[c] {
 		return true
 	}
